@@ -25,6 +25,7 @@ RULE = (
     "faulty case (the 8 valid seeds are the trivial ones)."
     " Keys are also replaced by near-miss spellings (a fragment, another case, the name doubled, two names glued with a comma, a trailing "
     "blank) for reading noise, sensor noise keys, process noise and calibration values."
+    " The noise entry of a control replaced by an entry keyed by a pair of controls (values 0 and 0.5)."
 )
 ASSUMPTIONS = ["any exception type counts as a refusal", "deviation bound: 0 faults, 1 fault, 2 faults of different kinds"]
 
